@@ -22,7 +22,7 @@ COMMON_ASSUMPTIONS = [
 
 
 prop('C01',
-     rules=['TAB-IMPLICIT', ('TBL-CONVERT', ['abbreviation']), 'TAB-OPS', 'TAB-KEYS-OPT', 'TAB-FORMATTERS', 'CENSUS', 'SIB-CARET', 'PATH-EMIT-HTML', ('PATH-STACK', ['markup']), 'PATH-PARSER-CTX', 'PATH-ONCE', ('PATH-INITORDER', ['abbreviation', 'markup'])],
+     rules=[('TBL-ATTRS', ['markup.implicit_tag']), 'TAB-IMPLICIT', ('TBL-CONVERT', ['abbreviation']), 'TAB-OPS', 'TAB-KEYS-OPT', 'TAB-FORMATTERS', 'CENSUS', 'SIB-CARET', 'PATH-EMIT-HTML', ('PATH-STACK', ['markup']), 'PATH-PARSER-CTX', 'PATH-ONCE', ('PATH-INITORDER', ['abbreviation', 'markup'])],
      explanation='Decides, for every path of the code, the structural clauses of the tree property: operator characters and kinds '
                  'agree between tokenizer, parser and printer (D), implicit names come from the documented table with the span/div '
                  'fallback (D). The compositional claim "exactly the denoted tree" is a runtime-value clause and is not decided.',
@@ -37,7 +37,7 @@ prop('C02',
      technique='linear normal forms of integer expressions; reader/writer key agreement')
 
 prop('C03',
-     rules=['OWN-TOKTREE', 'TBL-CONVERT', ('TAB-MEMBER', ['markup', 'abbreviation']), 'OWN-CACHEUSE', ('COV-MERGE', ['markup.snippets']), 'TAB-OPS', 'TAB-BRK', 'TAB-QUOTE', 'TAB-KEYS-OPT', 'DEC-BOOL', 'DEC-MERGEDECL', 'DEC-MULTIVALUE', 'SIB-CARET', 'SIB-QUOTE', 'OWN-ASTLIST', 'PATH-EMIT-ATTR', ('PATH-INITORDER', ['abbreviation', 'markup'])],
+     rules=['TBL-ATTRS', ('TBL-OUTPUT', ['output_stream', 'markup.format.utils']), 'OWN-TOKTREE', 'TBL-CONVERT', ('TAB-MEMBER', ['markup', 'abbreviation']), 'OWN-CACHEUSE', ('COV-MERGE', ['markup.snippets']), 'TAB-OPS', 'TAB-BRK', 'TAB-QUOTE', 'TAB-KEYS-OPT', 'DEC-BOOL', 'DEC-MERGEDECL', 'DEC-MULTIVALUE', 'SIB-CARET', 'SIB-QUOTE', 'OWN-ASTLIST', 'PATH-EMIT-ATTR', ('PATH-INITORDER', ['abbreviation', 'markup'])],
      explanation='Shorthand/bracket/quote characters agree with token kinds and with what is printed back inside values (D); option names '
                  'exist (D); boolean / implied / quote / case decisions are extracted as complete decision tables (N).',
      not_decided=['merge results for arbitrary orders and duplicates, reverse mode, name mapping (value-level)'],
@@ -51,14 +51,14 @@ prop('C04',
      technique='visitor exhaustiveness and table agreement')
 
 prop('C05',
-     rules=[('TBL-NUMBER', ['css_abbreviation']), 'TBL-CSSVALUE', ('NUM-LEFTPAD', ['stylesheet', 'css_abbreviation']), 'NUM-SHORTHEX', 'NUM-FRAC', 'DEC-UNIT', 'TAB-UNITS', 'TAB-CSSOPS', 'TAB-KEYS-OPT', ('EXC-NUMCONV', ['css_abbreviation', 'stylesheet']), ('EXC-FMT', ['stylesheet']), ('CNT-DEPTH', ['css_abbreviation']), ('DEC-CHARCLASS', ['css_abbreviation', 'scanner_utils']), ('OWN-GLOBAL', ['stylesheet'])],
+     rules=['TBL-CSSABBR', ('TBL-CONFIG', ['stylesheet.resolve_gradient', 'stylesheet.wrap_with_field', 'stylesheet.has_field']), ('TBL-NUMBER', ['css_abbreviation']), 'TBL-CSSVALUE', ('NUM-LEFTPAD', ['stylesheet', 'css_abbreviation']), 'NUM-SHORTHEX', 'NUM-FRAC', 'DEC-UNIT', 'TAB-UNITS', 'TAB-CSSOPS', 'TAB-KEYS-OPT', ('EXC-NUMCONV', ['css_abbreviation', 'stylesheet']), ('EXC-FMT', ['stylesheet']), ('CNT-DEPTH', ['css_abbreviation']), ('DEC-CHARCLASS', ['css_abbreviation', 'scanner_utils']), ('OWN-GLOBAL', ['stylesheet'])],
      explanation='Hex printing (left padding, short form only when r, g and b allow it, r-g-b order) is decided over all 256 channel values (D); '
                  'the unit decision is extracted as a complete table (N); alias/unit/separator tables are the documented ones (D).',
      not_decided=['tokenisation of number/unit/dash/colour sequences', 'frac() rounding beyond the conversion type'],
      technique='exhaustive table extraction of pure helpers; constant tables')
 
 prop('C06',
-     rules=[('OWN-GLOBAL', ['stylesheet']), ('EXC-INDEX', ['stylesheet']), 'TBL-CSSMATCH', 'DEC-DIRECTHIT', 'TAB-SNIPKEYS', 'DEC-SCOPE', 'EXC-JOIN', 'TAB-KEYS-OPT', 'ORD-MERGE'],
+     rules=['TBL-CSSABBR', ('TBL-CONFIG', ['stylesheet', 'config']), ('OWN-GLOBAL', ['stylesheet']), ('EXC-INDEX', ['stylesheet']), 'TBL-CSSMATCH', 'DEC-DIRECTHIT', 'TAB-SNIPKEYS', 'DEC-SCOPE', 'EXC-JOIN', 'TAB-KEYS-OPT', 'ORD-MERGE'],
      explanation='Necessary conditions for "a key selects its own snippet": equal case-folded strings score exactly 1 before any other exit and '
                  'a score of 1 is returned immediately; no key occurs twice (also ignoring case) after | expansion (exhaustive over all 479 keys); '
                  'scope filtering is a complete decision table and is applied on every call; default-value wrapping cannot raise on numbers.',
@@ -66,7 +66,7 @@ prop('C06',
      technique='structural dominance of the direct-hit exits; exhaustive key table check')
 
 prop('C07',
-     rules=[('TBL-CONVERT', ['abbreviation']), ('TBL-NUMBER', ['css_abbreviation']), 'TAB-MEMBER', 'EXC-NEXT', ('PIN-WRAPTEXT', ['abbreviation.convert']), 'EXC-RAISE/expand', 'EXC-VISITOR', 'EXC-FMT', 'EXC-JOIN', 'EXC-NUMCONV', 'EXC-KEY', 'TAB-VOCAB', 'TAB-KEYS-PROFILE', 'CENSUS',
+     rules=['TBL-CSSABBR', ('TBL-ATTRS', ['markup.implicit_tag']), ('TBL-CONFIG', ['stylesheet']), ('TBL-CONVERT', ['abbreviation']), ('TBL-NUMBER', ['css_abbreviation']), 'TAB-MEMBER', 'EXC-NEXT', ('PIN-WRAPTEXT', ['abbreviation.convert']), 'EXC-RAISE/expand', 'EXC-VISITOR', 'EXC-FMT', 'EXC-JOIN', 'EXC-NUMCONV', 'EXC-KEY', 'TAB-VOCAB', 'TAB-KEYS-PROFILE', 'CENSUS',
             'SCN-CORE', ('SCN-PROGRESS', EXPAND_MODS), ('SCN-OVER', EXPAND_MODS), 'EXC-RANDINT', 'NUM-LINEAR',
             ('EXC-INDEX', ['abbreviation', 'markup', 'stylesheet', 'css_abbreviation', 'scanner', 'scanner_utils', 'token_scanner', 'config', 'output_stream', 'list_utils', 'expand', 'snippets']), 'EXC-RET-STR'],
      explanation='Explicit raises reachable from expand are one of the two parse errors (D, call graph). Implicit internal errors are decided by '
@@ -75,7 +75,7 @@ prop('C07',
      technique='call-graph reachability of raise sites; per-family exception lints with reviewed tables')
 
 prop('C08',
-     rules=['OWN-TOKTREE', 'OWN-GLOBAL', 'OWN-DEFAULT', 'OWN-CALLER', 'OWN-RESTORE', 'OWN-CACHE', 'OWN-CACHEUSE', 'OWN-AMBIENT', 'OWN-ASTLIST', 'DEC-SCOPE', 'ORD-MERGE'],
+     rules=[('TBL-CONFIG', ['config', 'stylesheet.parse']), 'OWN-TOKTREE', 'OWN-GLOBAL', 'OWN-DEFAULT', 'OWN-CALLER', 'OWN-RESTORE', 'OWN-CACHE', 'OWN-CACHEUSE', 'OWN-AMBIENT', 'OWN-ASTLIST', 'DEC-SCOPE', 'ORD-MERGE'],
      explanation='Decides purity for the state the library itself keeps or touches, on every path and call chain: no module-level object is mutated and '
                  'no module-level name assigned (D), no mutable default argument is mutated (D), nothing reachable from the caller\'s config / Config / '
                  'global config / options is mutated except the cache slot and the verified temporary override of `text`, which is restored in a finally '
@@ -97,7 +97,7 @@ prop('C09',
 
 prop('C10',
      rules=['RNG-STRICT/css', ('RNG-SENT', ['css_matcher']), 'RNG-PAREN', ('RNG-STOP', ['css_matcher']), 'RNG-SCANSTATE', ('SCN-REST', ['css_matcher']), ('SCN-OVER', ['css_matcher']), ('SCN-PROGRESS', ['css_matcher']),
-            ('SCN-SKIP', ['css_matcher']), ('SCN-BLIND', ['css_matcher']), ('SIB-QUOTE', ['css_matcher']), 'RNG-TRIM', ('RNG-ORDER', ['css_matcher']), ('CNT-DEPTH', ['css_matcher']), ('SIB-ESCAPE', ['css_matcher']), ('SCN-ESCAPE', ['css_matcher', 'scanner_utils']), 'TBL-CSSSCAN'],
+            ('SCN-SKIP', ['css_matcher']), ('SCN-BLIND', ['css_matcher']), ('SIB-QUOTE', ['css_matcher']), 'RNG-TRIM', ('RNG-ORDER', ['css_matcher']), ('DEC-CHARCLASS', ['css_matcher', 'scanner_utils']), ('CNT-DEPTH', ['css_matcher']), ('SIB-ESCAPE', ['css_matcher']), ('SCN-ESCAPE', ['css_matcher', 'scanner_utils']), 'TBL-CSSSCAN'],
      explanation='Strict containment (N); arithmetic on a delimiter that may be the -1 sentinel is guarded wherever it can reach a result (N); '
                  'delimiters inside parentheses (N, known finding).',
      not_decided=['correctness of the selector/property state machine on arbitrary nesting'],
@@ -110,14 +110,14 @@ prop('C11',
      technique='clamp dominance; table agreement')
 
 prop('C12',
-     rules=['TBL-LINES', ('OWN-GLOBAL', ['markup.format', 'output_stream']), 'TAB-SELFCLOSE', 'ACC-WRITER', 'TAB-KEYS-OPT', 'OWN-RAWPUSH', 'SIB-SPLITLINES', 'PATH-LEVEL', 'PATH-EMIT-HTML', 'OWN-FMT-RO', 'OWN-ASTLIST',
+     rules=[('TBL-OUTPUT', ['output_stream', 'markup.format.comment', 'markup.format.utils']), 'TBL-LINES', ('OWN-GLOBAL', ['markup.format', 'output_stream']), 'TAB-SELFCLOSE', 'ACC-WRITER', 'TAB-KEYS-OPT', 'OWN-RAWPUSH', 'SIB-SPLITLINES', 'PATH-LEVEL', 'PATH-EMIT-HTML', 'OWN-FMT-RO', 'OWN-ASTLIST',
             'INF-FORMAT', 'INF-LEVEL', 'INF-COMMENT', 'INF-SELFCLOSE'],
      explanation='Self-closing style decides only the characters before > (D); newline/indent emission is newline + baseIndent + level*indent (D).',
      not_decided=['should_format\'s choice of where to break'],
      technique='decision tables; who-may-write')
 
 prop('C13',
-     rules=['TBL-LINES', ('INF-FORMAT', ['stylesheet.format']), 'ACC-WRITER', 'ACC-CALLBACK', 'NUM-FIELDIDX', 'SIB-CARET', 'OWN-RAWPUSH'],
+     rules=['TBL-OUTPUT', ('TBL-CONFIG', ['stylesheet.wrap_with_field']), 'TBL-LINES', ('INF-FORMAT', ['stylesheet.format']), 'ACC-WRITER', 'ACC-CALLBACK', 'NUM-FIELDIDX', 'SIB-CARET', 'OWN-RAWPUSH'],
      explanation='offset/line/column are written only by OutputStream in step with the appended text, callbacks get the current position and their '
                  'result is appended unmodified (D); tabstop numbers are state.field + relative index and advance by the largest index + 1 (D).',
      not_decided=['document-order numbering across a whole tree (value-level)'],
@@ -125,20 +125,20 @@ prop('C13',
      assumptions=['strings handed to raw push() contain no newline'])
 
 prop('C14',
-     rules=['COV-MERGE', 'TAB-SNIPKEYS', ('PATH-STACK', ['markup.snippets', 'markup.utils']), 'OWN-CACHEUSE'],
+     rules=[('TBL-CONFIG', ['config']), ('TBL-ATTRS', ['markup.attributes']), 'COV-MERGE', 'TAB-SNIPKEYS', ('PATH-STACK', ['markup.snippets', 'markup.utils']), 'OWN-CACHEUSE'],
      explanation='All data written on an alias (attributes, text, repeater, self-closing mark) is transferred to every top-level node of the definition and '
                  'children go to the last-child chain (N); multi-key tables do not shadow each other (D).',
      not_decided=['"expands exactly like its definition" (value-level)'],
      technique='field coverage; splice shape')
 
 prop('C15',
-     rules=['TBL-LINES', 'INF-FMTREADERS', ('TAB-MEMBER', ['markup.format']), 'TBL-INDENT', 'TAB-KEYS-PROFILE', 'TAB-FORMATTERS', 'SIB-CARET', 'SIB-SPLITLINES', 'OWN-RAWPUSH', 'PATH-LEVEL', 'PATH-EMIT-INDENT', 'INF-LEVEL', 'PATH-EMIT-ATTR'],
+     rules=[('TBL-OUTPUT', ['output_stream', 'markup.format.utils']), 'TBL-LINES', 'INF-FMTREADERS', ('TAB-MEMBER', ['markup.format']), 'TBL-INDENT', 'TAB-KEYS-PROFILE', 'TAB-FORMATTERS', 'SIB-CARET', 'SIB-SPLITLINES', 'OWN-RAWPUSH', 'PATH-LEVEL', 'PATH-EMIT-INDENT', 'INF-LEVEL', 'PATH-EMIT-ATTR'],
      explanation='Profile keys read by subscript exist in all three profiles and carry the documented punctuation (D); each syntax reaches its formatter (D).',
      not_decided=['tree equality with the HTML output; layout of multi-line text'],
      technique='reader/writer key agreement')
 
 prop('C16',
-     rules=['SCN-CORE', ('SCN-OVER', MATCH_MODS), ('SCN-PROGRESS', MATCH_MODS), ('SCN-REST', MATCH_MODS), ('SCN-SKIP', MATCH_MODS), ('SCN-BLIND', MATCH_MODS), 'SIB-VOID', 'RNG-TRIM', 'RNG-ORDER',
+     rules=['SCN-CORE', ('SCN-OVER', MATCH_MODS), ('SCN-PROGRESS', MATCH_MODS), ('SCN-REST', MATCH_MODS), ('SCN-SKIP', MATCH_MODS), ('SCN-BLIND', MATCH_MODS), 'SIB-VOID', 'RNG-TRIM', 'RNG-ORDER', ('DEC-CHARCLASS', ['html_matcher', 'css_matcher', 'scanner_utils']),
             ('PATH-FLAG', MATCH_MODS), ('CNT-DEPTH', MATCH_MODS), ('RNG-STOP', MATCH_MODS), 'RNG-SCANSTATE', ('RNG-FRAME', ['html_matcher']), 'SIB-HTMLSTACK', 'SIB-ESCAPE', 'SCN-ESCAPE', 'RNG-SENT', 'RNG-STRICT/html', 'RNG-STRICT/css', 'EXC-RAISE/matcher', 'EXC-THROWS', 'TBL-HTMLSCAN', 'TBL-CSSSCAN'],
      explanation='No explicit raise is reachable from the matchers (D); sentinel arithmetic guarded (N); strict containment (N).',
      not_decided=['relational clauses between match / balanced_outward / balanced_inward beyond predicate agreement'],
@@ -146,13 +146,13 @@ prop('C16',
 
 prop('C17',
      rules=[('OWN-AMBIENT', ['action_utils', 'html_matcher', 'css_matcher']), ('OWN-GLOBAL', ['action_utils', 'html_matcher', 'css_matcher']), ('RNG-SENT', ['action_utils']), 'RNG-STRICT/actions', 'EXC-RAISE/matcher', ('SCN-OVER', ['action_utils', 'css_matcher.parse', 'html_matcher.attributes']), ('SCN-PROGRESS', ['action_utils', 'css_matcher.parse', 'html_matcher.attributes']),
-            ('CNT-DEPTH', ['css_matcher.parse', 'action_utils']), 'RNG-TRIM', ('RNG-STOP', ['action_utils']), 'RNG-FRAME', ('SIB-HTMLSTACK', ['action_utils']), ('PIN-EXTRACT', ['action_utils']), 'TBL-ACTIONS', ('TBL-HTMLSCAN', ['html_matcher.attributes']), ('TBL-CSSSCAN', ['css_matcher.parse'])],
+            ('CNT-DEPTH', ['css_matcher.parse', 'action_utils']), 'RNG-TRIM', ('RNG-STOP', ['action_utils']), 'RNG-FRAME', ('DEC-CHARCLASS', ['html_matcher', 'css_matcher', 'scanner_utils']), ('SIB-HTMLSTACK', ['action_utils']), ('PIN-EXTRACT', ['action_utils']), 'TBL-ACTIONS', ('TBL-HTMLSCAN', ['html_matcher.attributes']), ('TBL-CSSSCAN', ['css_matcher.parse'])],
      explanation='The after offset of a declaration without ; and the open-tag containment test (N).',
      not_decided=['next/previous item selection logic'],
      technique='sentinel-flow analysis')
 
 prop('C18',
-     rules=[('TBL-NUMBER', ['css_abbreviation']), 'SCN-CORE', ('SCN-SPAN', TOK_MODS), ('SCN-REST', TOK_MODS), ('SCN-OVER', TOK_MODS), ('SCN-PROGRESS', TOK_MODS),
+     rules=['TBL-CSSABBR', ('TBL-NUMBER', ['css_abbreviation']), 'SCN-CORE', ('SCN-SPAN', TOK_MODS), ('SCN-REST', TOK_MODS), ('SCN-OVER', TOK_MODS), ('SCN-PROGRESS', TOK_MODS),
             ('EXC-NUMCONV', TOK_MODS), ('EXC-RAISE/expand', TOK_MODS + ['scanner']), ('CNT-DEPTH', TOK_MODS), ('SCN-SKIP', TOK_MODS), ('SCN-BLIND', TOK_MODS), ('SIB-QUOTE', TOK_MODS), ('DEC-CHARCLASS', TOK_MODS + ['scanner_utils'])],
      explanation='(partial, SCN-* cursor discipline rules being built) digit runs are converted only after a successful run with start set.',
      not_decided=['span tiling until SCN-* exists'],
@@ -168,7 +168,7 @@ prop('C19',
      technique='finite priority table extraction; call-graph raise reachability')
 
 prop('C20',
-     rules=[('OWN-GLOBAL', ['stylesheet', 'config', 'snippets']), ('TAB-SNIPKEYS', ['snippets']), 'ORD-MERGE', 'TAB-KEYS-OPT', 'TAB-UNITS', 'TAB-SELFCLOSE', ('OWN-CALLER', ['config', 'expand']), ('OWN-GLOBAL', ['config', 'snippets', 'expand']), ('OWN-DEFAULT', ['config', 'expand'])],
+     rules=[('TBL-CONFIG', ['config', 'stylesheet.parse', 'stylesheet.get_snippets_for_scope', 'stylesheet.convert_snippets']), ('OWN-GLOBAL', ['stylesheet', 'config', 'snippets']), ('TAB-SNIPKEYS', ['snippets']), 'ORD-MERGE', 'TAB-KEYS-OPT', 'TAB-UNITS', 'TAB-SELFCLOSE', ('OWN-CALLER', ['config', 'expand']), ('OWN-GLOBAL', ['config', 'snippets', 'expand']), ('OWN-DEFAULT', ['config', 'expand'])],
      explanation='The six layers are applied to a fresh dict in exactly the documented order, each looked up with a default or behind a membership guard, '
                  'no layer table or caller dict is written, Config passes (type, syntax, section, user, global) in that order and expand forwards the global config (D).',
      not_decided=[],
